@@ -123,7 +123,7 @@ def _ast_info(cover_line, cover_cond):
 def check(ctx) -> None:
     repo = ctx.repo
     ctx.rule("C07.agree", "ABSINT: block kept in the covered CDG <=> visit_node reaches a predicate visitor, over 16 exclusion combinations x versions", floor=60)
-    ctx.rule("C07.relink", "ABSINT: removal of an excluded block connects every predecessor with every successor; entry reachability preserved", floor=4)
+    ctx.rule("C07.relink", "ABSINT: removal of an excluded block connects every predecessor with every successor, also for chained excluded blocks in either removal order; entry reachability preserved", floor=6)
     ctx.rule("C07.deps", "ABSINT: control dependencies look through unlabelled edges, terminate on cycles; root dependence through unlabelled edges only", floor=5)
     ctx.rule("C07.graph", "ABSINT: _build_graph over representative shapes: no failure, roots, edges, no orphan outside the roots", floor=5)
     ctx.rule("C07.update", "ABSINT: _GoalsManager.update makes every goal of every shape current; uncovered goals stay current", floor=6)
@@ -250,8 +250,47 @@ def _shape_excluded(tools, loop_successor: bool):
     return g, dict(entry=entry, p=p, r=r, s=s, s2=s2, b=b), info
 
 
+def _shape_chain(tools):
+    """ENTRY -> P -T-> R1(excluded) -T-> R2(excluded) -T-> S: two guards that depend on each other, covered code below."""
+    nx, key = tools.nx, tools.key
+    entry = peval.Obj("ENTRY", classes=["ArtificialNode"])
+    p = _block(1, [_instr("LOAD_FAST", 1), _instr("POP_JUMP_IF_FALSE", 1)])
+    r1 = _block(2, [_instr("LOAD_FAST", 20), _instr("POP_JUMP_IF_FALSE", 20)])
+    r2 = _block(3, [_instr("LOAD_FAST", 30), _instr("POP_JUMP_IF_FALSE", 30)])
+    s = _block(4, [_instr("LOAD_FAST", 4), _instr("POP_JUMP_IF_FALSE", 4)])
+    g = nx.DiGraph()
+    g.add_edge(entry, p)
+    g.add_edge(p, r1, **{key: True})
+    g.add_edge(r1, r2, **{key: False})
+    g.add_edge(r2, s, **{key: False})
+    return g, dict(entry=entry, p=p, r1=r1, r2=r2, s=s), _ast_info({20: False, 30: False}, {})
+
+
 def _relink(ctx, repo, tools) -> None:
     nx = tools.nx
+    # two excluded blocks in a row, in both removal orders (the graph is iterated in insertion order)
+    for order in ("outer first", "inner first"):
+        tag = f"[relink two chained excluded blocks, {order}]"
+        g, n, info = _shape_chain(tools)
+        if order == "inner first":
+            g2 = nx.DiGraph()
+            g2.add_nodes_from([n["entry"], n["p"], n["r2"], n["r1"], n["s"]])
+            g2.add_edges_from(g.edges(data=True))
+            g = g2
+        try:
+            tools.covered_cdg(g, info)
+        except peval.Undecided as exc:
+            ctx.undecide("C07.relink", tools.ccd, f"{tag}: {exc}")
+            continue
+        except peval.Raises as exc:
+            ctx.fail("C07.relink", tools.ccd, f"{tag}: _create_covered_cdg raises {exc.name} ({exc.detail[:60]})", stmt=tag)
+            continue
+        gone = n["r1"] not in g and n["r2"] not in g
+        reach = all(nx.has_path(g, n["entry"], x) for x in g.nodes if x is not n["entry"])
+        ctx.check("C07.relink", tools.ccd, gone and g.has_edge(n["p"], n["s"]) and reach and set(g.nodes) == {n["entry"], n["p"], n["s"]},
+                  f"{tag}: nodes left {[getattr(x, 'label', x) for x in g.nodes]}, P->S={g.has_edge(n['p'], n['s'])}, every block reachable from the entry={reach}: the covered predicate below two consecutive `# pragma: no cover` guards "
+                  "is attached to a block that was already removed (it comes back as a parentless node) and loses its dependency: its goals never become current, or the fitness graph refuses a non-root branch without parent",
+                  what=f"{tag}: S hangs below P, nothing else left", stmt=tag)
     for loop in (False, True):
         tag = f"[relink {'successor is a loop header with a back edge' if loop else 'plain successors'}]"
         g, n, info = _shape_excluded(tools, loop)
@@ -415,6 +454,18 @@ def _pipeline(ctx, repo, tools) -> None:
             continue
         never = [f.label for f in ffs if f not in arch.objectives]
         ctx.check("C07.update", update, not never, f"{tag}: goals that never became current although every goal handed out was covered: {never}", what=f"{tag}: all {len(ffs)} goals become current", stmt=tag)
+        # one call is a fixed point: with a population that covers whatever it is handed, a single update() hands out the
+        # whole graph (the search loop stops as soon as the archive has no uncovered goal left - there may be no second call)
+        try:
+            arch1 = Archive()
+            mgr1 = tools.interp().instantiate("_GoalsManager", tools.cres("_GoalsManager", dmod), [], {"_archive": arch1, "_graph": graph, "_current_goals": OSet(roots)}, init=False)
+            arch1.add_goals(OSet(roots))
+            mgr1.methods["update"]([])
+        except (peval.Undecided, peval.Raises) as exc:
+            ctx.undecide("C07.update", update, f"{tag} single call: {exc}")
+            continue
+        late = [f.label for f in ffs if f not in arch1.objectives]
+        ctx.check("C07.update", update, not late, f"{tag}: after ONE update() with solutions that cover every goal they are handed, {len(late)} goals are still not current ({late[:4]}): the expansion stops before its fixed point; when nothing uncovered is left the search loop ends and these goals are never targeted although all their parents are covered", what=f"{tag}: one update() reaches the fixed point", stmt=f"{tag} single call")
     # an uncovered current goal stays current, its children are not handed out
     name, g, preds, info = _shapes(tools)[0]
     try:
